@@ -301,7 +301,14 @@ func (s *SpecValidator) validateSchemaPropertyNames(nm string, sch spec.Schema, 
 	schc := &sch
 	res := pools.poolOfResults.BorrowResult()
 
+	seenRefs := make(map[string]struct{})
 	for schc.Ref.String() != "" {
+		if _, seen := seenRefs[schc.Ref.String()]; seen {
+			// a chain of $ref that comes back onto itself: reported as circular ancestry elsewhere
+			return dups, res
+		}
+		seenRefs[schc.Ref.String()] = struct{}{}
+
 		// gather property names
 		reso, err := s.resolveRef(&schc.Ref)
 		if err != nil {
@@ -346,7 +353,15 @@ func (s *SpecValidator) validateCircularAncestry(nm string, sch spec.Schema, kno
 	schn := nm
 	schc := &sch
 
+	seenRefs := make(map[string]struct{})
 	for schc.Ref.String() != "" {
+		if _, seen := seenRefs[schc.Ref.String()]; seen {
+			// a chain of $ref that comes back onto itself (e.g. a definition which is a $ref to itself)
+			// never ends: this is a circular ancestry
+			return append(ancs, schc.Ref.String()), res
+		}
+		seenRefs[schc.Ref.String()] = struct{}{}
+
 		reso, err := s.resolveRef(&schc.Ref)
 		if err != nil {
 			errorHelp.addPointerError(res, err, schc.Ref.String(), nm)
